@@ -22,18 +22,18 @@ def main(tier):
     thorough = tier == "thorough"
     tmp = tla.scratch("c18-")
     try:
-        r = pipeline.mc_run(rep, "Alias", pipeline.write_cfg(tmp, "a.cfg", CFG % ""), label="alias 192 configurations", workers=4)
+        r = pipeline.mc_run(rep, "Alias", pipeline.write_cfg(tmp, "a.cfg", CFG % ""), label="alias configurations", workers=4)
         pipeline.deviation_runs(rep, "Alias", lambda d: CFG % ('"' + d + '"'), ["shadow_writes_target", "delete_hits_target"])
         COLL_CFG = "SPECIFICATION Spec\nCONSTANTS\n Dev = {}\n MaxLen = 3\nVIEW View\nPROPERTY PropShadow\nPROPERTY PropLive\nPROPERTY PropPassthrough\nPROPERTY PropItem\nCHECK_DEADLOCK FALSE\n"
         rc = pipeline.mc_run(rep, "AliasColl", pipeline.write_cfg(tmp, "c.cfg", COLL_CFG), label="collection-typed alias (element helpers)", workers=4)
         rep.mark("mc")
         cfgs = [json.loads(c) for c in sorted({common.canon(s["cfg"]) for s in r["states"]})]
-        if len(cfgs) != 192:
-            raise tla.MachineryError(f"expected 192 alias configurations, got {len(cfgs)}")
+        if len(cfgs) != 288:
+            raise tla.MachineryError(f"expected 288 alias configurations, got {len(cfgs)}")
         acts = sorted(r["acts"], key=common.canon)
         L = 4 if thorough else 3
         nr, rl = (300, 10) if thorough else (100, 8)
-        jobs = [([c], acts, L, nr, rl, common.seed() + i) for i, c in enumerate(cfgs)]
+        jobs = [([c], acts, L, nr, rl, common.seed() + i, 4 if thorough else 1) for i, c in enumerate(cfgs)]
         ccfgs = [json.loads(c) for c in sorted({common.canon(s["cfg"]) for s in rc["states"]})]
         cacts = sorted(rc["acts"], key=common.canon)
         jobs += [([c], cacts, 4 if thorough else 3, nr, rl, common.seed() + 1000 + i) for i, c in enumerate(ccfgs)]
@@ -60,7 +60,7 @@ def main(tier):
                 raise tla.MachineryError(f"judge antecedent {k} never true")
         rep.assumptions += ["deleting a missing target (directly or through a passthrough alias) may raise AttributeError or KeyError: the property names the class only for reads",
                             "parents of the target (o, d) always exist; only the final attribute / key goes missing"]
-        return rep.finish(rule="all access paths of the given length over the model's alphabet (alias/target read, write, delete, copy-on-write helper, deepcopy) "
-                               "for each of the 192 alias configurations, plus random longer paths; every path distinct")
+        return rep.finish(rule="(thorough: all paths one step shorter and every 4th path of the given length) all access paths of the given length over the model's alphabet (alias/target read, write, delete, copy-on-write helper, deepcopy) "
+                               "for each of the 288 alias configurations, plus random longer paths; every path distinct")
     finally:
         shutil.rmtree(tmp, ignore_errors=True)
